@@ -232,17 +232,28 @@ Fixpoint take_while_idx (f : nat -> N * N -> bool) (i : nat) (l : list (N * N)) 
   | x :: l' => if f i x then x :: take_while_idx f (S i) l' else []
   end.
 
-(* Curve::from_arrival_bound(ab, up_to_njobs); [] = Curve::new panics (empty vector) *)
+(* the repaired take_while of from_arrival_bound(_until): an element is kept if the old condition holds
+   OR no non-zero distance has been seen among the elements before it; the flag is updated with the
+   current element after the decision *)
+Fixpoint take_while_nz (f : nat -> N * N -> bool) (i : nat) (seen : bool) (l : list (N * N)) : list (N * N) :=
+  match l with
+  | [] => []
+  | x :: l' =>
+      if f i x || negb seen then x :: take_while_nz f (S i) (seen || negb (snd x =? 0)) l' else []
+  end.
+
+(* Curve::from_arrival_bound(ab, up_to_njobs); [] = Curve::new panics (empty vector).
+   [enough]: the take_while stops strictly inside the finite prefix of the iterator *)
 Definition curve_from_ab (ab : AB) (njobs : N) : list N :=
   let keep := fun (i : nat) (e : N * N) => (fst e <=? njobs) || Nat.ltb i 2 in
-  let l := dmins_enough ab 4 (fun l => existsb (fun e => negb (fst e <=? njobs)) l && Nat.leb 3 (length l)) in
-  map snd (take_while_idx keep 0 l).
+  let l := dmins_enough ab 4 (fun l => Nat.ltb (length (take_while_nz keep 0 false l)) (length l)) in
+  map snd (take_while_nz keep 0 false l).
 
 (* Curve::from_arrival_bound_until(ab, horizon) *)
 Definition curve_from_ab_until (ab : AB) (hz : N) : list N :=
   let keep := fun (i : nat) (e : N * N) => (snd e <=? hz) || Nat.ltb i 2 in
-  let l := dmins_enough ab (hz + 2) (fun l => existsb (fun e => negb (snd e <=? hz)) l && Nat.leb 3 (length l)) in
-  map snd (take_while_idx keep 0 l).
+  let l := dmins_enough ab (hz + 2) (fun l => Nat.ltb (length (take_while_nz keep 0 false l)) (length l)) in
+  map snd (take_while_nz keep 0 false l).
 
 (* From<Periodic>, From<Sporadic> for Curve *)
 Definition curve_of_periodic (T : N) : list N := [T].
